@@ -16,7 +16,7 @@ EVIDENCE = dict(
     trusted=["Lean kernel; standard axioms", "substitution model tied to the code by comparing the resulting schema (structurally) "
              "or the exception class on this run's cases"],
     rule="(schema, value) with values: conforming, partial dicts at any depth, perturbed, with `...` placeholders in supported "
-         "and unsupported positions, members that cannot be converted, extra keys; non-trivial = value is not the bare witness")
+         "and unsupported positions, members that cannot be converted, extra keys; non-trivial = value is not the bare witness; thorough tier adds the WHOLE small scope of substitutions (5.2k schemas x 57 plain / partial / `...`-bearing values)")
 
 
 def oracle(ctx, cases):
@@ -73,6 +73,11 @@ def run(ctx):
         ctx.breakage("correspondence", "substitution outcome differs between model and code",
                      schema=repr(c.schema), value=repr(c.value), detail=detail, request=c.req)
     ctx.cov["corr_disagreements"] = len(dis)
+    if not ctx.quick():
+        # thorough: the whole small scope of substitutions (every schema of a small grammar to depth 2 x plain, partial and
+        # `...`-bearing values), outcome compared with the model, exception kind / usability / idempotence on the real code
+        from .. import smallscope
+        smallscope.subst_scope(ctx, oracle=oracle)
     for c in cases[:200:40]:
         ctx.sample({"schema": repr(c.schema), "value": repr(c.value), "tag": c.tag,
                     "outcome": repr(c.result)[:300]})
